@@ -44,13 +44,26 @@ EvMerge ==
           IN /\ viol' = viol \cup (IF same THEN {} ELSE {<<l, "builders", x.fn, "differs">>})
              /\ drift' = drift
 
+EvList ==
+  /\ Line.ev = "list"
+  /\ LET x == Line IN
+     IF x.panic # ""
+     THEN /\ viol' = viol \cup {<<l, "builders", x.fn, "panic">>} /\ drift' = drift
+     ELSE LET w == IF x.fn = "SAdd" THEN SAddSpec(x.lists) ELSE SAddRecvSpec(x.recv, x.lists)
+          IN /\ viol' = viol \cup (IF SSet(x.got.v) = SSet(w) THEN {}
+                                   ELSE {<<l, "builders", x.fn,
+                                           IF ~(SSet(w) \subseteq SSet(x.got.v)) THEN "element-lost"
+                                           ELSE "differs">>})
+             /\ drift' = drift \cup (IF SSet(x.got.v) = SSet(w) /\ x.got.v # w
+                                     THEN {<<l, "builders.order", x.fn>>} ELSE {})
+
 Done ==
   /\ l = Len(Trace) + 1
   /\ PrintT(<<"RESULT", ToJson([lines |-> Len(Trace), ntx |-> n, viol |-> viol, drift |-> drift])>>)
   /\ UNCHANGED <<viol, drift, n>>
 
 TraceNext ==
-  \/ /\ l <= Len(Trace) /\ (EvState \/ EvMerge) /\ l' = l + 1 /\ n' = n + 1
+  \/ /\ l <= Len(Trace) /\ (EvState \/ EvMerge \/ EvList) /\ l' = l + 1 /\ n' = n + 1
   \/ (Done /\ l' = l + 1)
 
 TraceSpec == TraceInit /\ [][TraceNext]_tvars
